@@ -101,6 +101,12 @@ def des(name, monitor, bmax, deadline=300, bmin=0, **opts):
                 run_timeout=20)
 
 
+def deep(job, bmax, xb=3, deadline=2400):
+    """the same configuration explored deeper with visited-state pruning, after a cross-check at bound xb"""
+    return dict(job, name=job["name"] + "-deep-b%d" % bmax, bound_min=bmax, bound_max=bmax, prune_xcheck=xb,
+                state_bits=25, deadline=deadline)
+
+
 DES_ASSUME = ["process programs are generated by the driver's validity predicate (documented preconditions only)",
               "durations are drawn from {0,1,2}: coincidences on one instant are forced, other time values are not explored",
               "deviation bound: executions departing from the canonical script in more than B choices are not explored"]
@@ -123,7 +129,12 @@ def c05_jobs(tier):
                 ops="racq0,rrel0,racq1,rrel1,rpre0,rpre1,hold0,hold1,int0,int1,exit",
                 script="racq0,racq1,hold1,rrel0,rrel1"),
         ]
+    j1 = des("p3-loop", "mutex", 4, 1500, procs=3, prios="0,1,2", budget=5, res=1, ops=ops,
+             script="racq0,hold1,rrel0,racq0,hold1")
+    j2 = des("p3-eqprio", "mutex", 4, 1500, procs=3, prios="0,0,0", budget=5, res=1, ops=ops,
+             script="racq0,hold1,rrel0,racq0,hold1")
     return [
+        deep(j1, 6), deep(j2, 6),
         des("p3-loop", "mutex", 4, 1500, procs=3, prios="0,1,2", budget=5, res=1, ops=ops,
             script="racq0,hold1,rrel0,racq0,hold1"),
         des("p3-eqprio", "mutex", 4, 1500, procs=3, prios="0,0,0", budget=5, res=1, ops=ops,
@@ -755,3 +766,20 @@ spec("C16", jobs=c16_jobs,
      rule="tables: 256 layers x 2 distributions; lattice: 23 sampler/parameter sets x 2^lbits raw words; sequences: 35 sampler/"
           "parameter sets x 40^K raw-word sequences; distinct_nontrivial = distinct returned values (sequences) / distinct outcome vectors",
      assumptions=["draws beyond the K enumerated words follow one fixed pseudo-random continuation (same for library and reference)"])
+
+
+# ----------------------------------------------------------------------------- deeper pruned jobs in the thorough tiers
+def _with_deep(fn, n=2, bmax=5):
+    def jobs(tier):
+        base = fn(tier)
+        if tier == "quick":
+            return base
+        extra = [deep(j, bmax) for j in base if j["harness"] == "des" and "prune_xcheck" not in j][:n]
+        return base + extra
+    return jobs
+
+
+for _pid, _n, _b in (("C04", 2, 5), ("C06", 3, 5), ("C07", 2, 5), ("C08", 3, 5), ("C09", 2, 5), ("C10", 2, 4),
+                     ("C11", 2, 5), ("C12", 2, 5), ("C13", 2, 5), ("C14", 2, 5)):
+    SPECS[_pid]["jobs"] = _with_deep(SPECS[_pid]["jobs"], _n, _b)
+    SPECS[_pid]["budget"] = dict(quick=SPECS[_pid]["budget"]["quick"], thorough=14400)
